@@ -204,7 +204,7 @@ impl<'a> WCtx<'a> {
     /// a path for a write or a navigation, with its class tag and the model value there
     fn pick_path(&self, u: &mut Src, want_container: bool) -> (Vec<Seg>, &'static str, Option<&'a Y>) {
         let containers: Vec<&(Vec<Seg>, &Y)> = self.nodes.iter().filter(|n| n.1.is_container()).collect();
-        let choice = u.weighted(&[6, 3, 3, 3, 3, 4, 2, 1]);
+        let choice = u.weighted(&[5, 4, 5, 4, 5, 4, 2, 1]);
         match choice {
             1 if !self.hints.anchors.is_empty() => {
                 let p = u.pick(&self.hints.anchors).clone();
